@@ -35,7 +35,7 @@ DEVS = {
     "Dev_OverwriteLocalEngine": r"^C15 (CrossStore engine-extra|DeletedIsGone layer=engine op=\S+) kind=(index|fixed|variable) after=create-overwrite\S*:ok other-lease=true",
     "Dev_CalcIndexTwice": r"^C15 NamesUnique how=auto-index-created-twice",
     "Dev_CalcIndexUnchecked": r"^C15 NamesUnique how=auto-index-collides",
-    "Dev_FreeRenameStaleIndex": r"^C15 NamesUnique how=user after=\S+:ok gateway-is-bootstrapper=true",
+    "Dev_FreeRenameStaleIndex": r"^C15 NamesUnique how=collides-with-free-channel-renamed-via-non-bootstrapper",
 }
 
 BASE = dict(Node="{1,2}", BaseName='{"a","b"}', ExtraName="{}",
@@ -203,37 +203,58 @@ def confirm(ctx, hist, tag):
     return rows[0] if rows else None
 
 
-def report_rows(ctx, rows, by_id, tag, notes, confirmed):
-    """route harness verdict rows through ctx.report after a reproduction run.
-    Returns number of distinct signatures reported."""
-    seen = {}
+def sigs_of(row):
+    return [v["sig"] for v in (row.get("viol") or [])]
+
+
+def judge(ctx, rows, by_id, tag, notes):
+    """Reproduce (one batched re-run from scratch) and route verdicts through ctx.report.
+    Returns the list of reproduced drift / inconclusive rows."""
+    by_sig = {}
+    other = []
     for row in rows:
-        if row["r"] != "viol":
-            continue
-        for v in row["viol"]:
-            seen.setdefault(v["sig"], []).append((row, v))
-    for sig, lst in seen.items():
-        if sig in confirmed:
-            status = confirmed[sig]
-        else:
-            row, v = lst[0]
-            again = confirm(ctx, by_id[row["id"]], "repro_%s_%d" % (tag, len(confirmed)))
-            ok = again is not None and again["r"] == "viol" and any(x["sig"] == sig for x in again["viol"])
-            if not ok and len(lst) > 1:
-                row, v = lst[1]
-                again = confirm(ctx, by_id[row["id"]], "repro2_%s_%d" % (tag, len(confirmed)))
-                ok = again is not None and again["r"] == "viol" and any(x["sig"] == sig for x in again["viol"])
-            status = confirmed[sig] = "yes" if ok else "no"
-            if not ok:
-                notes.append("violation %r did not reproduce on re-run (%d histories)" % (sig, len(lst)))
-        if status != "yes":
+        if row["r"] == "viol":
+            for v in row["viol"]:
+                by_sig.setdefault(v["sig"], []).append((row, v))
+        elif row["r"] in ("drift", "inconclusive"):
+            other.append(row)
+    if not by_sig and not other:
+        return []
+    # first two examples of every signature + up to 6 drift / inconclusive rows
+    want = {}
+    for sig, lst in by_sig.items():
+        for row, v in lst[:2]:
+            want.setdefault(row["id"], set()).add(sig)
+    for row in other[:6]:
+        want.setdefault(row["id"], set())
+    ids = sorted(want)
+    again_h = [dict(by_id[i], id=n) for n, i in enumerate(ids)]
+    summ, rows2 = run_replay(ctx, again_h, "repro_" + tag, workers=4)
+    again = {ids[r["id"]]: r for r in rows2}
+    reproduced = set()
+    for i in ids:
+        r2 = again.get(i)
+        if r2 is not None and r2["r"] == "viol":
+            reproduced |= set(sigs_of(r2)) & want[i]
+    for sig, lst in by_sig.items():
+        if sig not in reproduced:
+            notes.append("violation %r did not reproduce on re-run (%d histories); not reported" % (sig, len(lst)))
             continue
         row, v = lst[0]
         ctx.report(sig, v["what"], {
             "history": by_id[row["id"]], "violation": v, "log": row.get("log"),
             "histories_with_this_signature": len(lst),
             "cmd": "python3 tools/verif.py replay C15 <this file>"})
-    return len(seen)
+    real = []
+    for row in other[:6]:
+        r2 = again.get(row["id"])
+        if r2 is not None and r2["r"] in ("drift", "inconclusive"):
+            real.append((by_id[row["id"]], r2))
+        else:
+            notes.append("non-reproducing %s (%s): %s" % (row["r"], tag, json.dumps(row.get("drift") or row.get("note"))[:300]))
+    if len(other) > 6:
+        notes.append("%d further drift/inconclusive rows in %s not re-run" % (len(other) - 6, tag))
+    return real
 
 
 def gen_profiles(thorough):
@@ -241,49 +262,75 @@ def gen_profiles(thorough):
     opts = '{"plain","retrieve","overwrite"}'
     p = []
     # bounded-exhaustive (BFS): every behaviour of the small alphabet
-    p.append(dict(name="bfs2", mode="bfs", sample=None if thorough else 700,
+    p.append(dict(name="bfs2", mode="bfs", sample=None if thorough else 500,
                   consts=dict(MaxReq=2, MaxRestart=1), depth=2))
     p.append(dict(name="bfs_del", mode="bfs", sample=None if thorough else 350,
                   consts=dict(Node="{1,2}", BaseName='{"a"}', Kinds='{"index","virtual","free"}',
                               Types='{"create","delete","rename"}', ExtraName='{"b"}', MaxReq=3), depth=3))
+    # every engine-backed kind created and deleted (fixed- and variable-density data, index)
+    for nm, kinds in (("bfs_fixed", '{"index","fixed"}'), ("bfs_variable", '{"index","variable"}')):
+        p.append(dict(name=nm, mode="bfs", sample=None if thorough else 300,
+                      consts=dict(Node="{1,2}" if thorough else "{1}", BaseName='{"a","b"}', Kinds=kinds,
+                                  Types='{"create","delete"}', MaxReq=3), depth=3))
+    # options on batches of two
+    p.append(dict(name="bfs_opts", mode="bfs", sample=None if thorough else 300,
+                  consts=dict(Node="{1,2}" if thorough else "{1}", BaseName='{"a","b"}', Kinds='{"index","virtual"}',
+                              Opts=opts, Types='{"create"}', MaxBatch=2, MaxReq=2), depth=2))
     # restarts: counters, engine directories and names must survive (on-disk storage)
     p.append(dict(name="bfs_restart", mode="bfs", sample=None,
                   consts=dict(Node="{1}", BaseName='{"a"}', Kinds='{"index"}', Types='{"create","delete"}',
                               MaxReq=5, MaxRestart=1), depth=5))
-    p.append(dict(name="bfs_rename_restart", mode="bfs", sample=None if thorough else 120,
+    p.append(dict(name="bfs_rename_restart", mode="bfs", sample=None if thorough else 100,
                   consts=dict(Node="{1,2}" if thorough else "{1}", BaseName='{"a","b"}', Kinds='{"index","virtual"}',
                               Types='{"create","rename"}', MaxReq=3, MaxRestart=1), depth=3))
     # two CreateMany calls inside one caller transaction
-    p.append(dict(name="bfs_chain", mode="bfs", sample=None if thorough else 250,
+    p.append(dict(name="bfs_chain", mode="bfs", sample=None if thorough else 200,
                   consts=dict(Node="{1,2}", BaseName='{"a","b"}' if thorough else '{"a"}',
                               Kinds='{"index","virtual","free"}', Types='{"create"}',
                               Chain="TRUE", MaxReq=2), depth=2))
     # wide random walks
-    p.append(dict(name="sim3", mode="sim", num=500 if thorough else 60,
+    p.append(dict(name="sim3", mode="sim", num=700 if thorough else 120,
                   consts=dict(Node="{1,2,3}", BaseName='{"a","b","c"}', ExtraName='{"a_time"}', Kinds=allk,
                               Opts=opts, MaxBatch=2, MaxReq=5, MaxCtr=24, MaxRestart=1, Chain="TRUE"),
                   depth=5))
-    p.append(dict(name="sim2", mode="sim", num=500 if thorough else 60,
+    p.append(dict(name="sim2", mode="sim", num=700 if thorough else 120,
                   consts=dict(Node="{1,2}", BaseName='{"a","b"}', ExtraName='{"a_time"}', Kinds=allk,
                               Opts=opts, MaxBatch=3 if thorough else 2, MaxReq=6 if thorough else 4, MaxCtr=30,
                               MaxRestart=0, Chain="TRUE"),
                   depth=6 if thorough else 4))
     if thorough:
-        p.append(dict(name="bfs3", mode="bfs", sample=6000,
-                      consts=dict(Kinds='{"index","fixed","virtual","free","calc"}', MaxReq=3,
-                                  BaseName='{"a"}', ExtraName='{"a_time"}', Opts='{"plain","overwrite"}'), depth=3))
-        p.append(dict(name="sim1", mode="sim", num=300,
+        p.append(dict(name="bfs3_opts", mode="bfs", sample=4000,
+                      consts=dict(BaseName='{"a"}', Kinds='{"index","virtual","free"}', Opts=opts,
+                                  Types='{"create","delete"}', MaxReq=3), depth=3))
+        p.append(dict(name="bfs3_calc", mode="bfs", sample=4000,
+                      consts=dict(BaseName='{"a"}', ExtraName='{"a_time"}', Kinds='{"index","virtual","calc"}',
+                                  Opts='{"plain","overwrite"}', Types='{"create","delete"}', MaxReq=3), depth=3))
+        p.append(dict(name="sim1", mode="sim", num=500,
                       consts=dict(Node="{1}", BaseName='{"a","b"}', ExtraName='{"a_time"}', Kinds=allk,
                                   Opts=opts, MaxBatch=3, MaxReq=7, MaxCtr=40, MaxRestart=2, Chain="TRUE"),
                       depth=7))
     return p
 
 
+def generate(ctx, prof, devs):
+    tag = prof["name"]
+    text = cfg("GSpec", prof["consts"], devs, ["Emit"], depth=prof["depth"])
+    if prof["mode"] == "bfs":
+        r = ctx.tlc(AREA, "ChannelSvcGen", tag + ".cfg", files={tag + ".cfg": text}, tag=tag,
+                    workers=3, timeout=2400, heap="4g")
+    else:
+        r = ctx.tlc(AREA, "ChannelSvcGen", tag + ".cfg", files={tag + ".cfg": text}, tag=tag,
+                    workers=2, timeout=2400, simulate="num=%d" % prof["num"], depth=600)
+    uniq = {}
+    for h in hists_of(r):
+        uniq.setdefault(stim_key(h), h)
+    return prof, r, list(uniq.values())
+
+
 def run(ctx):
     import time
     thorough = ctx.tier == "thorough"
     notes = ctx.notes
-    confirmed = {}
     phases = {}
     t_phase = [time.time()]
 
@@ -293,13 +340,15 @@ def run(ctx):
         t_phase[0] = now
         if os.environ.get("VERIF_DEBUG"):
             print("[c15] phase %s %.1fs" % (name, phases[name]), flush=True)
-    # 1. design level, masked
-    design = design_checks(ctx, thorough)
+    ctx.spec_copy(AREA)
+    # 1. design level, masked  ||  2. as-is, one deviation at a time -> directed scripts
+    with concurrent.futures.ThreadPoolExecutor(max_workers=2) as ex:
+        f1 = ex.submit(design_checks, ctx, thorough)
+        f2 = ex.submit(directed_scripts, ctx)
+        design = f1.result()
+        scripts, cex_stats = f2.result()
     zero = [z for d in design for z in d.get("zero_coverage", [])]
-    phase("design")
-    # 2. as-is, one deviation at a time -> directed scripts
-    scripts, cex_stats = directed_scripts(ctx)
-    phase("as-is-cex")
+    phase("design+as-is")
     # 3. directed scripts on the real code: verdicts + calibration
     devs = {}
     order = list(DEVS)
@@ -316,35 +365,26 @@ def run(ctx):
             row = again
             if row is not None:
                 row["id"] = i
-                rowmap[i] = row
+            rowmap[i] = row
         sigs = [v["sig"] for v in ((row or {}).get("viol") or []) + ((row or {}).get("pending") or [])]
         devs[d] = any(re.search(DEVS[d], s) for s in sigs)
-    report_rows(ctx, [r for r in rowmap.values() if r], by_id, "directed", notes, confirmed)
+    judge(ctx, [r for r in rowmap.values() if r], by_id, "directed", notes)
     calibration = {d: ("present" if v else "absent") for d, v in devs.items()}
     phase("directed-replay")
-    # 4. generated behaviours with the calibrated constants
-    total = 0
-    samples = []
-    gens = []
+    # 4. behaviours generated with the calibrated constants, all replayed in one harness run
+    profs = gen_profiles(thorough)
+    with concurrent.futures.ThreadPoolExecutor(max_workers=4 if thorough else 7) as ex:
+        results = list(ex.map(lambda p: generate(ctx, p, devs), profs))
+    phase("generate")
     states = sum(d["distinct"] for d in design)
     trans = sum(d["generated"] for d in design)
     exhaustive_all = True
-    mech = {}
-    drift_rows = []
-    for prof in gen_profiles(thorough):
+    samples = []
+    gens = []
+    hs = []
+    prof_of = {}
+    for prof, r, allh in results:
         tag = prof["name"]
-        consts = prof["consts"]
-        text = cfg("GSpec", consts, devs, ["Emit"], depth=prof["depth"])
-        if prof["mode"] == "bfs":
-            r = ctx.tlc(AREA, "ChannelSvcGen", tag + ".cfg", files={tag + ".cfg": text}, tag=tag,
-                        workers=6, timeout=2400, heap="6g")
-        else:
-            r = ctx.tlc(AREA, "ChannelSvcGen", tag + ".cfg", files={tag + ".cfg": text}, tag=tag,
-                        workers=4, timeout=2400, simulate="num=%d" % prof["num"], depth=600)
-        uniq = {}
-        for h in hists_of(r):
-            uniq.setdefault(stim_key(h), h)
-        allh = list(uniq.values())
         if not allh:
             raise vlib.Inconclusive("profile %s generated no behaviour" % tag)
         chosen = allh
@@ -353,39 +393,33 @@ def run(ctx):
             exhaustive_all = False
         if prof["mode"] == "sim":
             exhaustive_all = False
-        n = nodes_of(consts)
-        hs = [{"id": i, "nodes": n, "steps": h} for i, h in enumerate(chosen)]
-        by_id = {h["id"]: h for h in hs}
-        summ, rows = run_replay(ctx, hs, tag, workers=8 if thorough else 6)
-        for k, v in summ["counts"].items():
-            mech[k] = mech.get(k, 0) + v
-        total += len(hs)
+        n = nodes_of(prof["consts"])
+        for h in chosen:
+            prof_of[len(hs)] = tag
+            hs.append({"id": len(hs), "nodes": n, "steps": h})
         if len(samples) < 3:
-            samples.append([{k: s[k] for k in ("t", "g", "opt", "ents", "cut", "res", "why", "ret")} for s in chosen[len(chosen) // 2]])
-        report_rows(ctx, rows, by_id, tag, notes, confirmed)
-        for row in rows:
-            if row["r"] in ("drift", "inconclusive"):
-                drift_rows.append((tag, by_id[row["id"]], row))
-        gens.append({"profile": tag, "mode": prof["mode"], "generated": len(allh), "replayed": len(hs),
-                     "tlc_states": r.distinct or r.generated, "tlc_wall_s": round(r.wall, 1),
-                     "go_wall_s": summ["go_wall_s"], "counts": {k: v for k, v in summ["counts"].items() if not k.startswith("stat:")}})
+            samples.append([{k: s[k] for k in ("t", "g", "opt", "ents", "cut", "res", "why", "ret")}
+                            for s in chosen[len(chosen) // 2]])
+        gens.append({"profile": tag, "mode": prof["mode"], "generated": len(allh), "replayed": len(chosen),
+                     "tlc_states": r.distinct or r.generated, "tlc_wall_s": round(r.wall, 1)})
         if prof["mode"] == "bfs":
             states += r.distinct
             trans += r.generated
-        phase("gen:" + tag)
-    # drift / inconclusive rows must reproduce to count
-    real_drift = []
-    for tag, h, row in drift_rows[:6]:
-        again = confirm(ctx, h, "drift_" + tag)
-        if again is not None and again["r"] in ("drift", "inconclusive"):
-            real_drift.append((tag, h, again))
-        elif again is not None and again["r"] == "viol":
-            report_rows(ctx, [dict(again, id=h["id"])], {h["id"]: h}, "drift_" + tag, notes, confirmed)
-        else:
-            notes.append("non-reproducing %s in profile %s: %s" % (row["r"], tag, json.dumps(row.get("drift") or row.get("note"))[:300]))
+    by_id = {h["id"]: h for h in hs}
+    summ, rows = run_replay(ctx, hs, "main", workers=8 if thorough else 6, timeout=3000)
+    mech = dict(summ["counts"])
+    per_prof = {}
+    for row in rows:
+        d = per_prof.setdefault(prof_of[row["id"]], {})
+        d[row["r"]] = d.get(row["r"], 0) + 1
+    for g in gens:
+        g["non_ok_rows"] = per_prof.get(g["profile"], {})
+    phase("replay")
+    real_drift = judge(ctx, rows, by_id, "main", notes)
+    phase("reproduce")
     cov = {
         "states": states, "transitions": trans,
-        "traces_validated_against_impl": total + len(order),
+        "traces_validated_against_impl": len(hs) + len(order),
         "samples": samples,
         "exhaustive": exhaustive_all,
         "design_runs": design,
@@ -393,7 +427,9 @@ def run(ctx):
         "calibration": calibration,
         "phase_wall_s": phases,
         "generation": gens,
-        "mechanisms": {k: v for k, v in sorted(mech.items()) if k.startswith("stat:")},
+        "replay_go_wall_s": summ["go_wall_s"],
+        "outcomes": {k: v for k, v in sorted(mech.items()) if not k.startswith("stat:")},
+        "mechanisms": {k[5:]: v for k, v in sorted(mech.items()) if k.startswith("stat:")},
         "rule": "masked design check of ChannelSvc.tla (all clauses, failure injection after every step, any peer order); "
                 "one as-is run per named deviation whose shortest counterexample is replayed on the real cluster; "
                 "TLC-generated behaviours (BFS-exhaustive small alphabets incl. restarts and chained creates, "
@@ -401,7 +437,6 @@ def run(ctx):
                 "with metadata of every node and engine of every node compared after every request",
         "notes": notes,
     }
-    # vacuity guards
     need = ["stat:req:create:ok", "stat:req:create:fail", "stat:req:delete:ok", "stat:req:rename:ok",
             "stat:restarts", "stat:gone-checks", "stat:created"]
     missing = [k for k in need if not mech.get(k)]
@@ -411,16 +446,14 @@ def run(ctx):
         "requests are issued one at a time with quiescence in between (C15 quantifies over sequences)",
         "restart = close and reopen of a node's distribution and storage layers on the same directory",
     ])
-    if rc == 0 and real_drift and not ctx.known_hits and not ctx.violations:
-        tag, h, row = real_drift[0]
+    if rc == 0 and real_drift and not ctx.known_hits:
+        h, row = real_drift[0]
         ctx.save_replay({"history": h, "row": row}, name="drift-%s-%d.json" % (ctx.tier, ctx.seed))
-        raise vlib.Inconclusive("DRIFT in profile %s: real code and specification disagree on %s (not a statement of "
-                                "C15): %s" % (tag, (row.get("drift") or {}).get("what", row.get("note")),
-                                              json.dumps(row.get("drift") or row.get("note"))[:600]))
+        raise vlib.Inconclusive("DRIFT: real code and specification disagree on %s (not a statement of C15): %s" % (
+            (row.get("drift") or {}).get("what", "propagation"), json.dumps(row.get("drift") or row.get("note"))[:600]))
     if rc == 0 and real_drift:
-        tag, h, row = real_drift[0]
-        print("NOTE property=C15 drift next to reported findings in profile %s: %s" % (
-            tag, json.dumps(row.get("drift") or row.get("note"))[:400]))
+        h, row = real_drift[0]
+        print("NOTE property=C15 drift next to known findings: %s" % json.dumps(row.get("drift") or row.get("note"))[:400])
     if rc == 0 and (missing or zero):
         raise vlib.Inconclusive("vacuity: mechanisms never exercised %s; spec actions never taken %s" % (missing, zero))
     return rc
